@@ -6,14 +6,15 @@ VERIF = os.path.dirname( os.path.dirname( os.path.abspath( __file__ )))
 lp = os.path.join( root, 'labels.json' )
 labels = json.load( open( lp )) if os.path.exists( lp ) else {}
 used = { l for l in os.listdir( os.path.join( VERIF, 'seeded' )) } | set( labels.values())
-for pid in sorted( d for d in os.listdir( root ) if re.match( r'C\d\d$', d )):
+for pid in sorted( d for d in os.listdir( root ) if re.match( r'C\d\d[a-z]?$', d )):
     od = os.path.join( root, pid, 'out' )
     for k in sorted( os.listdir( od )) if os.path.isdir( od ) else []:
         key = '%s/%s' % ( pid, k )
         if key in labels or not os.path.isfile( os.path.join( od, k, 'patch.diff' )):
             continue
-        n = max( [ 19 ] + [ int( u.split( '-' )[1] ) for u in used if u.startswith( pid + '-' ) and u.split( '-' )[1].isdigit() ] ) + 1
-        labels[key] = '%s-%d' % ( pid, n ); used.add( labels[key] )
+        prop = pid[:3]
+        n = max( [ 21 ] + [ int( u.split( '-' )[1] ) for u in used if u.startswith( prop + '-' ) and u.split( '-' )[1].isdigit() ] ) + 1
+        labels[key] = '%s-%d' % ( prop, n ); used.add( labels[key] )
 json.dump( labels, open( lp, 'w' ), indent=1 )
 for k, v in sorted( labels.items()):
     print( k, v )
